@@ -29,6 +29,7 @@ use tracing::info;
 
 // Constants for file structure
 const HARD_STATE_FILE_NAME: &str = "hard_state.bin";
+const PURGE_BOUNDARY_FILE_NAME: &str = "purge_boundary.bin";
 pub(crate) const HARD_STATE_KEY: &[u8] = b"hard_state";
 
 /// All mutable state for the log store, protected by a single Mutex.
@@ -49,7 +50,6 @@ struct FileLogStoreInner {
 /// File-based log store implementation
 #[derive(Debug)]
 pub struct FileLogStore {
-    #[allow(unused)]
     data_dir: PathBuf,
     inner: Mutex<FileLogStoreInner>,
     /// Cached last index for hot-path reads without locking.
@@ -324,6 +324,19 @@ impl LogStore for FileLogStore {
 
         inner.entries.retain(|&index, _| index > cutoff_index.index);
 
+        // Persist the purge boundary (same as the RocksDB store): BufferedRaftLog::new() reads
+        // it on restart so that entry_term(last_purged_index) - the prev_log_term of the first
+        // retained entry - survives a restart.
+        let boundary_path = self.data_dir.join(PURGE_BOUNDARY_FILE_NAME);
+        let tmp_path = self.data_dir.join(format!("{PURGE_BOUNDARY_FILE_NAME}.tmp"));
+        {
+            let mut file = File::create(&tmp_path)?;
+            file.write_all(&cutoff_index.encode_to_vec())?;
+            file.flush()?;
+            file.sync_all()?;
+        }
+        fs::rename(&tmp_path, &boundary_path)?;
+
         Ok(())
     }
 
@@ -413,6 +426,17 @@ impl LogStore for FileLogStore {
 
     fn last_index(&self) -> u64 {
         self.last_index.load(Ordering::SeqCst)
+    }
+
+    fn load_purge_boundary(&self) -> Result<Option<LogId>, Error> {
+        let boundary_path = self.data_dir.join(PURGE_BOUNDARY_FILE_NAME);
+        if !boundary_path.exists() {
+            return Ok(None);
+        }
+        let bytes = fs::read(&boundary_path)?;
+        let boundary = LogId::decode(bytes.as_slice())
+            .map_err(|e| StorageError::DbError(format!("purge boundary file: {e}")))?;
+        Ok(Some(boundary))
     }
 }
 
